@@ -198,3 +198,91 @@ def config_table(prog, chk):
         chk.ob("C13.config", inst, ok,
                "expected pending 4 -> %d, received 2 -> %d, the slot's handle in state PUSH_CONFIG_RECEIVED holding the configuration; source: status %s, "
                "pending %s, received %s, state %s, configuration %s, slot %s" % (want_p, want_r, q.ret, pend, recv, st, conf, slot_now), loc=fh.loc(), fn=fh)
+
+
+def send_timeout_table(prog, chk):
+    """The send timeout of the request at the head of the TCP send queue is honoured whether or not anything can be written:
+    dispatch (net_tcp_async.c) is evaluated for a connected socket with poll() reporting {nothing, readable only, writable} x the
+    per-round request limit {reached, not reached} x the head request {younger, older than the send timeout}.  A request that has waited
+    longer than the timeout ends in state ERROR / KSI_NETWORK_SEND_TIMEOUT and leaves the queue in every column; a younger one is
+    written only when the socket is writable and the round limit allows it, and is otherwise left alone."""
+    import itertools
+    from ksirules.bufinterp import BufInterp
+    chk.rule("C13.sndtimeout", "async TCP: a request older than the send timeout is failed and removed whether or not the socket is writable "
+                               "(decision table over poll result, round limit, age)", floor=12)
+    K = prog.const
+    DISP, WAIT, ERRS = K("KSI_ASYNC_STATE_WAITING_FOR_DISPATCH"), K("KSI_ASYNC_STATE_WAITING_FOR_RESPONSE"), K("KSI_ASYNC_STATE_ERROR")
+    SNDT, MAXR, RDUR = K("KSI_ASYNC_OPT_SND_TIMEOUT"), K("KSI_ASYNC_OPT_MAX_REQUEST_COUNT"), K("KSI_ASYNC_PRIVOPT_ROUND_DURATION")
+    TMO = K("KSI_NETWORK_SEND_TIMEOUT")
+    POLLIN, POLLOUT = 1, 4
+    fn = prog.fn("dispatch", "net_tcp_async.c")
+    tp = fn.params[0]["n"]
+    for (pres, revents), limit_reached, age in itertools.product(((0, 0), (1, POLLIN), (1, POLLOUT), (1, POLLIN | POLLOUT)), (0, 1), (3, 11, 10)):
+        queue = [Ptr("REQ")]
+        removed = []
+        sends = []
+
+        def qlen(I, p, node, args):
+            return len(queue)
+
+        def qat(I, p, node, args):
+            out = strip(node["a"][2])
+            idx = args[1]
+            ok = isinstance(idx, int) and 0 <= idx < len(queue)
+            I.write(p, lvalue_key(out["e"], I.fn), queue[idx] if ok else 0)
+            return 0 if ok else 0x10b
+
+        def qrm(I, p, node, args):
+            idx = args[1]
+            if isinstance(idx, int) and 0 <= idx < len(queue):
+                removed.append(queue.pop(idx))
+                return 0
+            return 0x10b
+
+        def poll(I, p, node, args):
+            a0 = strip(node["a"][0])
+            key = lvalue_key(a0["e"], I.fn) if isinstance(a0, dict) and a0.get("k") == "un" else None
+            if key:
+                I.write(p, key + ".revents", revents)
+            return pres
+
+        def time_(I, p, node, args):
+            a0 = strip(node["a"][0]) if node["a"] else None
+            if isinstance(a0, dict) and a0.get("k") == "un" and a0["op"] == "&":
+                I.write(p, lvalue_key(a0["e"], I.fn), 1000)
+            return 1000
+
+        def send(I, p, node, args):
+            sends.append((args[1], args[2]))
+            return args[2] if isinstance(args[2], int) else TOP
+        ov = {"KSI_AsyncHandleList_length": qlen, "KSI_AsyncHandleList_elementAt": qat, "KSI_AsyncHandleList_remove": qrm, "poll": poll, "time": time_,
+              "difftime": lambda I, p, n_, a: (a[0] - a[1]) if isinstance(a[0], int) and isinstance(a[1], int) else TOP, "send": send,
+              "recv": lambda I, p, n_, a: -1, "__errno_location": lambda I, p, n_, a: Ptr("ERRNO"), "closeSocket": lambda I, p, n_, a: TOP,
+              "KSI_free": lambda I, p, n_, a: TOP, "KSI_OctetString_free": lambda I, p, n_, a: TOP, "memset": lambda I, p, n_, a: a[0]}
+        inputs = {tp: Ptr("T"), "T->ctx": Ptr("ctx"), "T->sockfd": 5, "T->socketReady": 1, "T->reqQueue": Ptr("Q"), "T->respQueue": Ptr("RQ"), "T->parent": Ptr("PAR"),
+                  "T->inLen": 0, "T->roundCount": 7, "T->roundStartAt": 1000, "T->connectedAt": 900,
+                  "PAR->options[%d]" % SNDT: 10, "PAR->options[%d]" % MAXR: 7 if limit_reached else 100, "PAR->options[%d]" % RDUR: 1,
+                  "REQ->state": DISP, "REQ->reqTime": 1000 - age, "REQ->sentCount": 0, "REQ->len": 40, "REQ->raw": Ptr("RAW"), "REQ->err": 0,
+                  "*ERRNO": 11, "ERRNO[0]": 11}
+        I = BufInterp(fn, {"RAW": 40, "ERRNO": 1}, inputs=inputs, call_model=succeed_model(prog, ov), on_unknown="stop", prog=prog, loop_bound=6)
+        paths = I.run()
+        chk.paths += len(paths)
+        inst = "dispatch[poll=%d revents=%#x,round limit %s,head waited %d s of 10]" % (pres, revents, "reached" if limit_reached else "open", age)
+        if len(paths) != 1 or paths[0].undetermined:
+            raise AnalysisBroken("net_tcp_async.c dispatch: evaluation not determined for %s: %s" % (inst, [q.undetermined[:1] for q in paths]))
+        q = paths[0]
+        st = I.read(q, "REQ->state")
+        err = I.read(q, "REQ->err")
+        expired = age > 10
+        writable = bool(revents & POLLOUT)
+        if expired:
+            ok = q.ret == 0 and st == ERRS and err == TMO and removed == [Ptr("REQ")] and not sends
+            want = "the request failed with KSI_NETWORK_SEND_TIMEOUT and removed from the queue, nothing written"
+        elif writable and not limit_reached:
+            ok = q.ret == 0 and st == WAIT and removed == [Ptr("REQ")] and len(sends) == 1
+            want = "the request written and moved to WAITING_FOR_RESPONSE"
+        else:
+            ok = q.ret == 0 and st == DISP and not removed and not sends
+            want = "the request left waiting in the queue, nothing written"
+        chk.ob("C13.sndtimeout", inst, ok, "expected %s; source: status %s, state %s, error %s, removed %s, send calls %d"
+               % (want, q.ret, st, hex(err) if isinstance(err, int) else err, removed, len(sends)), loc=fn.loc(), fn=fn, nontrivial=expired and not writable)
